@@ -240,12 +240,19 @@ class Parser:
     def _parse(self) -> AST:
         root = AST(source=self.source)
 
+        while (token := self.next_token) and token.type == TokenType.COMMENT:
+            self._parse_comment(root)
+
         token = self._assert_and_cunsume(TokenType.BRACKET_LEFT)
         root.tokens.append(token)
 
         while (token := self.next_token) is not None:
             if token.type == TokenType.BRACKET_RIGHT:
                 break
+
+            if token.type == TokenType.COMMENT:
+                self._parse_comment(root)
+                continue
 
             if token.type != TokenType.BRACKET_LEFT:
                 raise TokenTypeError(token, "BRACKET_LEFT, BRACKET_RIGHT")
@@ -276,55 +283,57 @@ class Parser:
         t2 = self._assert_and_cunsume(TokenType.BRACKET_RIGHT)
         node.tokens.append(t2)
 
-        t3 = self._assert_and_cunsume(TokenType.BRACKET_LEFT)
-        node.tokens.append(t3)
-
         self._parse_subtree(node)
         root.add_child(node)
 
     def _parse_subtree(self, root: ASTNode) -> None:
-        flag = True  # flag to check if the brachet_left can be consumed
+        """Parse the items of a branch.
+
+        Stops in front of the `)` or `|` that ends the branch, which is
+        consumed by the caller.
+        """
         current = root
         while (token := self.next_token) is not None:
             match token.type:
                 case TokenType.BRACKET_LEFT:
                     self._read_token()
-                    if flag:
-                        flag = False
+                    if (item := self.next_token) is None:
+                        raise AssertionTokenTypeError() from ValueError(
+                            "Unexpected EOF"
+                        )
+
+                    if item.type == TokenType.FLOAT:
+                        current = self._parse_node(current)
+                    elif item.type != TokenType.LITERAL:
+                        self._parse_split(current)
+                    elif str.upper(item.value) == "COLOR":
+                        self._parse_color(current)
                     else:
-                        self._parse_subtree(current)
+                        raise LiteralTokenError(item, "COLOR")
 
-                case TokenType.BRACKET_RIGHT:
+                case TokenType.BRACKET_RIGHT | TokenType.OR:
                     break
-
-                case TokenType.FLOAT:
-                    current = self._parse_node(current)
-                    flag = True
-
-                case TokenType.LITERAL:
-                    match str.upper(token.value):
-                        case "COLOR":
-                            self._parse_color(current)
-                        case _:
-                            raise LiteralTokenError(token, "COLOR")
-
-                    flag = True
-
-                case TokenType.OR:
-                    current = root
-                    self._read_token()
-                    flag = True
 
                 case TokenType.COMMENT:
                     self._parse_comment(current)
 
                 case _:
-                    excepted = (
-                        "BRACKET_LEFT, BRACKET_RIGHT, LITERAL, FLOAT, OR, COMMENT"
-                    )
+                    excepted = "BRACKET_LEFT, BRACKET_RIGHT, OR, COMMENT"
                     raise TokenTypeError(token, excepted)
 
             current.tokens.append(token)
+
+    def _parse_split(self, root: ASTNode) -> None:
+        # ( BRANCH | BRANCH | ... ), the opening bracket has been consumed
+        while True:
+            self._parse_subtree(root)
+            token = self._consume()
+            if token is None:
+                raise AssertionTokenTypeError() from ValueError("Unexpected EOF")
+
+            root.tokens.append(token)
+            if token.type == TokenType.BRACKET_RIGHT:
+                break
 
     def _parse_node(self, root: ASTNode) -> ASTNode:
         # FLOAT FLOAT FLOAT FLOAT )
